@@ -5,7 +5,8 @@ import contracts.chunk as CH
 import contracts.plugin as P
 
 PROVED = [CH.chunk_init_rows, CH.chunk_init_none, CH.chunk_init_other, CH.continuity_check, CH.promised_continuity,
-          P.check_dtype_arr, P.check_dtype_other, P.plugin_chunk, P.fix_output_chunk, P.fix_output_other]
+          P.check_dtype_arr, P.check_dtype_other, P.plugin_chunk, P.fix_output_chunk, P.fix_output_other,
+          P.down_chunk_fix_output]
 
 PROPERTY = Property(
     "C12", "proof",
